@@ -106,7 +106,16 @@ func tTag(c context, s []byte) (context, int) {
 		if specialElements[c.element.name] {
 			ret.state = stateSpecialElementBody
 		}
-		if c.element.name != "" && voidElements[c.element.name] {
+		// With an element name chosen by conditional branches, the element context is only left
+		// if every candidate is a void element; otherwise the other candidates (e.g. a script
+		// element) would be forgotten and a following action analysed as top-level content.
+		allVoid := true
+		for _, name := range c.element.names {
+			if !voidElements[name] {
+				allVoid = false
+			}
+		}
+		if c.element.name != "" && voidElements[c.element.name] && allVoid {
 			// Special case: end of start tag of a void element.
 			// Discard unnecessary state, since this element have no content.
 			ret.element = element{}
